@@ -30,7 +30,7 @@ pub fn run(env: &Env, rep: &Report) {
     rep.set_rule("histories of predict calls (0..8 detections, drop-outs, exact duplicates, false positives, empty calls, rotated boxes incl. |angle| > 2pi, crowds / crossings) over 1..3 scenes interleaved with wasted / idle queries, for Sort, BatchSort, VisualSort, BatchVisualSort, IoU(t) and Mahalanobis, shards 1..4, history 1..10, max_idle 0..5. Oracle: monitor model of ids / epochs / lengths plus the echo of custom id, scene and observed box and the stored track read back through the public store accessor. Non-trivial: a call with >= 2 detections of which >= 2 overlap each other or one live track; distinct = distinct serialized history");
     rep.assume("observed-box echo compared within 2 ulp per field (None and Some(0.0) are the same angle); cases run in child processes");
     let pool = IsoPool::new(&env.prop, "history", std::time::Duration::from_secs(120));
-    let n = env.tier.pick(3_000, 40_000);
+    let n = env.tier.pick(6_000, 60_000);
     for kind in KINDS {
         par_generated(rep, "history", move || history(kind, false, 40), n, workers(), iso_check(&pool, rep));
     }
